@@ -206,6 +206,15 @@ func (h *TwoPartyHandler) CanAccept(msg *Message) bool {
 func (h *TwoPartyHandler) Accept(msg *Message) {
 	h.mtx.Lock()
 	defer h.mtx.Unlock()
+	// a panic while decoding or verifying the peer's message ends the session
+	// with an error instead of crashing the process
+	defer func() {
+		if r := recover(); r != nil {
+			if h.err == nil && h.result == nil {
+				h.abort(fmt.Errorf("panic while processing a message: %v", r))
+			}
+		}
+	}()
 
 	if !h.CanAccept(msg) || h.err != nil || h.result != nil {
 		return
